@@ -65,6 +65,14 @@ def cases(tier, seed):
                     if s not in (-1, 1) and c0 != lo:
                         continue   # invalid signature is rejected before charges are looked at: one slice suffices
                     out.append({'id': f'leg-{sym}-k{nsect}-s{s}-c{c0}', 'kind': 'leg', 'sym': sym, 'nsect': nsect, 's': s, 'slice': c0, 'tier': tier, 'seed': seed})
+    # three sectors (repeated charges that are not adjacent, sorting of three): valid dimensions only, narrow charge box
+    for sym in ('Z2', 'Z3', 'U1', 'U1xU1xZ2' if tier == 'thorough' else 'Z2'):
+        if tier == 'thorough' and len(MOD[sym]) == 1:
+            continue     # covered by the full 3-sector box above
+        for s in (-1, 1):
+            lo, hi = _charge_box(sym, 0, 'quick')
+            for c0 in range(lo, hi + 1):
+                out.append({'id': f'leg3-{sym}-s{s}-c{c0}', 'kind': 'leg', 'sym': sym, 'nsect': 3, 's': s, 'slice': c0, 'tier': tier, 'seed': seed, 'narrow': True})
     for i in range(len(NONINT)):
         out.append({'id': f'leg-nonint-{i}', 'kind': 'leg_nonint', 'i': i, 'tier': tier, 'seed': seed})
     return out
@@ -295,10 +303,14 @@ def k_leg(ctx, spec):
     s = ctx.integer('s', spec['s'], spec['s'])
     ts, Ds = [], []
     dlo, dhi = (-1, 2) if tier == 'quick' else (-1, 3)
+    if spec.get('narrow'):
+        dlo, dhi, tier = 1, 2, 'quick'
     for i in range(nsect):
         t = []
         for c in range(nsym):
             lo, hi = _charge_box(sym, c, tier)
+            if spec.get('narrow') and MOD[sym][c] == 0:
+                lo, hi = -1, 1
             if i == 0 and c == 0 and spec['slice'] is not None:
                 lo = hi = spec['slice']
             t.append(ctx.integer(f't{i}_{c}', lo, hi))
